@@ -3,7 +3,7 @@ import ast
 
 from ..index import AnalysisError, u, dotted, call_name, call_attr, base_name, walk_local
 from .. import flow
-from .common import method
+from .common import method, unconditional_in
 from ..fold import fold, try_fold, NotConstant
 from ..fmt import layout
 from ..util import (kwarg, assignments_to, single_def, param_defaults, calls_with_env, stmts_with_env, subscript_key,
@@ -16,15 +16,34 @@ GRO = 'vermouth/gmx/gro.py'
 def reader_fields(ck, module, fn, var='fields'):
     """[(name, typename, width, start, end)] from `fields = [(name, type, width), ...]`."""
     val = single_def(fn, var)
+    if not isinstance(val, (ast.List, ast.Tuple)):
+        # the other spelling: the table the cutting loop walks (a local or a class attribute), with explicit slices
+        for loop in [l for l in walk_local(fn) if isinstance(l, ast.For) and isinstance(l.target, ast.Tuple) and len(l.target.elts) == 3]:
+            src = loop.iter
+            cand = single_def(fn, src.id) if isinstance(src, ast.Name) else None
+            if isinstance(src, ast.Attribute) and isinstance(src.value, ast.Name) and src.value.id in ('self', 'cls'):
+                cls = module.enclosing(fn, ast.ClassDef)
+                for st in (cls.body if cls is not None else []):
+                    if isinstance(st, ast.Assign) and any(isinstance(t, ast.Name) and t.id == src.attr for t in st.targets):
+                        cand = st.value
+            if isinstance(cand, (ast.List, ast.Tuple)) and cand.elts and all(isinstance(e, ast.Tuple) and len(e.elts) == 3 for e in cand.elts):
+                val = cand
+                break
     ck.need(isinstance(val, (ast.List, ast.Tuple)), '{}: reader column table `{}` not found in {}'.format(module.rel, var, fn.name))
     out = []
     col = 0
     for elt in val.elts:
         ck.need(isinstance(elt, ast.Tuple) and len(elt.elts) == 3, 'reader table entry is not (name, type, width)')
         name = fold(elt.elts[0])
-        width = fold(elt.elts[2])
-        out.append((name, u(elt.elts[1]), width, col, col + width))
-        col += width
+        third = elt.elts[2]
+        if isinstance(third, ast.Call) and call_name(third) == 'slice' and len(third.args) == 2:
+            start, end = fold(third.args[0]), fold(third.args[1])
+            out.append((name, u(elt.elts[1]), end - start, start, end))
+            col = end
+        else:
+            width = fold(third)
+            out.append((name, u(elt.elts[1]), width, col, col + width))
+            col += width
     return out
 
 
@@ -209,6 +228,8 @@ def run(ck):
     rfields = reader_fields(ck, pdb, atom_reader)
     named = [f for f in rfields if f[0]]
     rspan = {f[0]: (f[3], f[4]) for f in named}
+    # columns of the record name: the unnamed first entry of a table of widths, or what precedes the first field of a table of slices
+    record_name_w = rfields[0][2] if not rfields[0][0] else min(f[3] for f in named)
 
     calls, sinks = record_format_calls(ck, pdb, wfn)
     ck.expect_count('FMT record format calls (PDB writer)', len(calls), 3)
@@ -238,7 +259,7 @@ def run(ck):
     ck.ob('FMT-layout', pdb.loc(call), len(fields) == len(named) == len(args),
           'ATOM writer has {} fields / {} arguments, reader table has {} named fields'.format(len(fields), len(args), len(named)),
           key='FMT-layout|ATOM|count')
-    ck.ob('FMT-layout', pdb.loc(call), lits and lits[0][0].startswith('ATOM  ') and rfields[0][2] == 6,
+    ck.ob('FMT-layout', pdb.loc(call), lits and lits[0][0].startswith('ATOM  ') and record_name_w == 6,
           'record name occupies columns 0-6 on both sides', key='FMT-layout|ATOM|recname')
     for i, (fld, arg, rf) in enumerate(zip(fields, args, named)):
         name, _typ, width, start, end = rf
@@ -261,11 +282,14 @@ def run(ck):
                   i, u(arg), sorted(map(str, keys)), name),
               key='FMT-layout|ATOM|attr|' + name)
     # reader accumulates the column for every field
+    # (a table of widths needs the running column; a table of explicit slices has none to keep)
+    width_loops = [l for l in walk_local(atom_reader) if isinstance(l, ast.For) and 'fields' in u(l.iter) and
+                   any(isinstance(n, ast.Name) and n.id == 'start' and isinstance(n.ctx, ast.Store) for n in ast.walk(l))]
     for st, cond, env in stmts_with_env(atom_reader, lambda s: isinstance(s, (ast.AugAssign, ast.Assign)) and
                                         any(isinstance(t, ast.Name) and t.id == 'start' for t in
                                             ([s.target] if isinstance(s, ast.AugAssign) else s.targets))
                                         and loops_around(pdb, s, atom_reader),
-                                        stmts=[l for l in walk_local(atom_reader) if isinstance(l, ast.For) and 'fields' in u(l.iter)][0].body):
+                                        stmts=width_loops[0].body if width_loops else []):
         ck.ob('FMT-reader-accumulate', pdb.loc(st), flow.valid(cond) and 'width' in u(st),
               'column counter advances by the width of every field, named or not (`{}` under {})'.format(u(st), flow.show(cond)),
               key='FMT-reader-accumulate|_atom')
@@ -306,7 +330,7 @@ def run(ck):
         d = single_def(do_conect, name)
         if d is not None:
             cenv[name] = d
-    r_start, r_stride = rfields[0][2], serial_w
+    r_start, r_stride = record_name_w, serial_w
     if rng:
         r_start = try_fold(rng[0].args[0], cenv)
         r_stride = try_fold(rng[0].args[2], cenv)
@@ -328,11 +352,11 @@ def run(ck):
             if isinstance(lo, ast.Name) and lo.id == lv and isinstance(hi, ast.BinOp) and isinstance(hi.op, ast.Add):
                 w = try_fold(hi.right, cenv) if (isinstance(hi.left, ast.Name) and hi.left.id == lv) else None
                 ok_slice = (w == r_stride)
-        ck.ob('FMT-serial', pdb.loc(rng[0]), ok_slice and isinstance(r_start, int) and isinstance(r_stride, int) and r_stride == serial_w and r_start == rfields[0][2],
+        ck.ob('FMT-serial', pdb.loc(rng[0]), ok_slice and isinstance(r_start, int) and isinstance(r_stride, int) and r_stride == serial_w and r_start == record_name_w,
               'CONECT reader reads cells of width {} from column {} (serial width {}, record name width {})'.format(
-                  r_stride, r_start, serial_w, rfields[0][2]), key='FMT-serial|CONECT-reader')
+                  r_stride, r_start, serial_w, record_name_w), key='FMT-serial|CONECT-reader')
         if not (isinstance(r_start, int) and isinstance(r_stride, int)):
-            r_start, r_stride = rfields[0][2], serial_w
+            r_start, r_stride = record_name_w, serial_w
     ck.need('CONECT' in records, 'CONECT record format call not found')
     for ccall, cfmt, cfields, clits, label in records['CONECT']:
         prev_end = len('CONECT')
@@ -473,6 +497,26 @@ def run(ck):
     ck.ob('PROV-serial-table', pdb.loc(ccall), ok_gen and len(star) == 1,
           'CONECT partner operands are the table entries of the node\'s neighbours, each bond kept by a strict key order test (`{}`)'.format(gtxt[:160]),
           key='PROV-serial-table|conect-partners')
+
+    # every bond gets its record: nothing between the partner list and the chunk loop may drop a node or a partner
+    jumps = [n for n in ast.walk(c_node_loop) if isinstance(n, (ast.Continue, ast.Break, ast.Return))]
+    wl_loops = [l for l in loops_around(pdb, ccall, wfn) if isinstance(l, ast.While)]
+    work = u(wl_loops[0].test) if wl_loops and isinstance(wl_loops[0].test, ast.Name) else None
+    wdefs = []
+    if work is not None:
+        for st_ in ast.walk(c_node_loop):
+            if isinstance(st_, ast.Assign):
+                for t_ in st_.targets:
+                    if any(isinstance(x, ast.Name) and x.id == work and isinstance(x.ctx, ast.Store) for x in ast.walk(t_)):
+                        wdefs.append(st_)
+    plain = [d for d in wdefs if len(gens) == 1 and any(n is gens[0] for n in ast.walk(d.value)) and isinstance(d.value, ast.Call) and call_name(d.value) in ('sorted', 'list', 'tuple')]
+    chunked = [d for d in wdefs if wl_loops and any(d is s_ for s_ in wl_loops[0].body)]
+    emit = [s_ for s_ in (wl_loops[0].body if wl_loops else []) if isinstance(s_, ast.Expr) and call_attr(s_.value) == 'append' and u(s_.value.func.value) == 'out']
+    ok_all = work is not None and not jumps and len(wdefs) == 2 and len(plain) == 1 and len(chunked) == 1 and len(emit) == 1 and \
+        unconditional_in(wfn, c_node_loop.body, wl_loops[0]) and unconditional_in(wfn, c_mol_loop.body, c_node_loop)
+    ck.ob('MPT-conect-all', pdb.loc(c_node_loop), ok_all,
+          'every bond of every molecule is written: the partner list of a node goes to the chunk loop as built (no node skipped, no partner filtered out: {} jump(s), {} assignment(s) to the '
+          'work list), and every chunk is appended'.format(len(jumps), len(wdefs)), key='MPT-conect-all')
 
     # ------------------------------------------------------------------ GRO
     gw = gro.func('write_gro')
